@@ -1381,6 +1381,8 @@ def dump_kwargs_context(kwargs):
 
 
 def discard_init_args_on_class_path_change(parser_or_action, prev_val, value):
+    if prev_val and "dict_kwargs" in prev_val and prev_val["class_path"] != value["class_path"]:
+        prev_val.pop("dict_kwargs")  # given for the previous class; the new class gets only the ones given for it
     if prev_val and "init_args" in prev_val and prev_val["class_path"] != value["class_path"]:
         parser = parser_or_action
         if isinstance(parser_or_action, ActionTypeHint):
